@@ -60,9 +60,9 @@ let hist_str (e : endpt) =
       | None -> "" | Some p -> Printf.sprintf "%d:rd=%s,wr=%s" i (digest p.p_s.s_rd) (digest p.p_s.s_wr)) (range 0 n))
 let wait_str l = String.concat "" (List.map (function WSockR -> "r" | WSockW -> "w" | WMuxR -> "R" | WMuxW -> "W") l)
 let world_str w waits =
-  Printf.sprintf "CL %s || SV %s || cs=[%s] sc=[%s] || hist CL %s SV %s || waits %s || stale=%s"
+  Printf.sprintf "CL %s || SV %s || cs=[%s] sc=[%s] || hist CL %s SV %s || waits %s || stale=%s || quiet=%s%s"
     (end_str w.w_cl) (end_str w.w_sv) (frames_str w.w_cs) (frames_str w.w_sc)
-    (hist_str w.w_cl) (hist_str w.w_sv) waits (bl w.w_stale)
+    (hist_str w.w_cl) (hist_str w.w_sv) waits (bl w.w_stale) (bl (quiescentb w)) (bl (quiescent_eagerb w))
 let crash_str = function
   | CrAssertConnect -> "AssertionError" | CrReraise -> "OSError" | CrUnknownCmd -> "Exception" | CrBadEvent -> "BADEVENT"
 let parse_ev s =
